@@ -30,7 +30,6 @@ import (
 	"net/url"
 	"os"
 	"os/exec"
-	"runtime/pprof"
 	"sort"
 	"strconv"
 	"strings"
@@ -134,6 +133,26 @@ func connIndex(lines []string) int {
 	return n + 1 + at(lines[0])*n + at(lines[1])
 }
 
+// shortConn lists the configurations whose lines have at most two tokens.
+func shortConn() []int {
+	n, short := len(connLists), 0
+	for _, l := range connLists {
+		if strings.Count(l, ",") < 2 {
+			short++
+		}
+	}
+	out := []int{0}
+	for a := 0; a < short; a++ {
+		out = append(out, 1+a)
+	}
+	for a := 0; a < short; a++ {
+		for b := 0; b < short; b++ {
+			out = append(out, n+1+a*n+b)
+		}
+	}
+	return out
+}
+
 func connCount() int { n := len(connLists); return 1 + n + n*n }
 
 // fixed hop-by-hop headers other than Connection and Transfer-Encoding (those have their own factors).
@@ -195,6 +214,8 @@ type envT struct {
 	major, minor int
 	remote, ip   string
 	url          string
+	parsed       *url.URL
+	proto, ver   string
 }
 
 var envProtos = [][2]int{{1, 1}, {1, 0}}
@@ -203,11 +224,19 @@ var envURLs = []string{"http://example.com/path", "https://example.com:8443/p?x=
 
 const nEnv = 12
 
-func env(e int) envT {
-	p := envProtos[e%2]
-	r := envRemotes[(e/2)%3]
-	return envT{major: p[0], minor: p[1], remote: r[0], ip: r[1], url: envURLs[e/6]}
-}
+func env(e int) envT { return envs[e] }
+
+var envs = func() (out [nEnv]envT) {
+	for e := range out {
+		p := envProtos[e%2]
+		r := envRemotes[(e/2)%3]
+		out[e] = envT{major: p[0], minor: p[1], remote: r[0], ip: r[1], url: envURLs[e/6]}
+		out[e].parsed, _ = url.Parse(out[e].url)
+		out[e].proto = fmt.Sprintf("HTTP/%d.%d", p[0], p[1])
+		out[e].ver = fmt.Sprintf("%d.%d", p[0], p[1])
+	}
+	return
+}()
 
 // buildHeader returns the header multiset of a case (canonical keys, as net/http parses them off the wire).
 func buildHeader(c Case, id identity) http.Header {
@@ -253,9 +282,7 @@ func buildHeader(c Case, id identity) http.Header {
 // ---------------------------------------------------------------------------------------------------
 // reference model (from the statement)
 
-// hop-by-hop headers fixed by the HTTP specification (RFC 2616 13.5.1 / RFC 7230 6.1).
-var specHop = map[string]bool{"connection": true, "keep-alive": true, "proxy-authenticate": true, "proxy-authorization": true,
-	"te": true, "trailer": true, "trailers": true, "transfer-encoding": true, "upgrade": true}
+// hop-by-hop headers fixed by the HTTP specification (RFC 2616 13.5.1 / RFC 7230 6.1): see specHopNames.
 
 func trimOWS(s string) string { return strings.Trim(s, " \t") }
 
@@ -272,19 +299,30 @@ func flatten(lines []string) []string {
 	return out
 }
 
-// hopKind says whether the statement calls header name hop-by-hop given the message's Connection lines.
-func hopKind(name string, conn []string) string {
-	ln := strings.ToLower(name)
-	if specHop[ln] {
-		return "fixed"
+// hopInfo holds the trimmed tokens of a message's Connection lines.
+type hopInfo struct{ listed []string }
+
+func newHopInfo(conn []string) hopInfo { return hopInfo{listed: flatten(conn)} }
+
+var specHopNames = []string{"Connection", "Keep-Alive", "Proxy-Authenticate", "Proxy-Authorization", "TE", "Trailer", "Trailers", "Transfer-Encoding", "Upgrade"}
+
+// kind says whether the statement calls header name hop-by-hop: "fixed" (by the HTTP specification),
+// "listed" (named by a Connection line, compared case-insensitively after trimming) or "".
+func (hi hopInfo) kind(name string) string {
+	for _, n := range specHopNames {
+		if strings.EqualFold(n, name) {
+			return "fixed"
+		}
 	}
-	for _, t := range flatten(conn) {
-		if strings.ToLower(t) == ln {
+	for _, t := range hi.listed {
+		if strings.EqualFold(t, name) {
 			return "listed"
 		}
 	}
 	return ""
 }
+
+func hopKind(name string, conn []string) string { return newHopInfo(conn).kind(name) }
 
 func receivedBy(entry string) string {
 	f := strings.Fields(entry)
@@ -342,9 +380,13 @@ func badTE(te []string) bool {
 }
 
 type fail struct {
-	Sym  string
-	Desc string
+	Sym    string
+	format string
+	args   []interface{}
 }
+
+// Desc renders the description (lazily: most failing cases are only counted).
+func (f fail) Desc() string { return fmt.Sprintf(f.format, f.args...) }
 
 type fails []fail
 
@@ -354,7 +396,7 @@ func (fs *fails) add(sym, format string, a ...interface{}) {
 			return
 		}
 	}
-	*fs = append(*fs, fail{sym, fmt.Sprintf(format, a...)})
+	*fs = append(*fs, fail{sym, format, a})
 }
 
 func (fs fails) has(sym string) bool {
@@ -371,11 +413,12 @@ func (fs fails) has(sym string) bool {
 // legitimately carry (through the proxy only) and which are judged by the caller.
 func checkHopAndOthers(fs *fails, in, out http.Header, skip map[string]bool) {
 	conn := in["Connection"]
+	hi := newHopInfo(conn)
 	for name, vals := range in {
 		if skip[name] || name == "Proxy-Connection" {
 			continue
 		}
-		switch hopKind(name, conn) {
+		switch hi.kind(name) {
 		case "fixed":
 			for k := range out {
 				if strings.EqualFold(k, name) {
@@ -549,8 +592,9 @@ func (w *stackWorld) evalStack(c Case) (fs fails, obs stackObs) {
 	if c.Dir == "req" {
 		e = env(c.F[fEnv])
 	}
-	u, _ := url.Parse(e.url)
-	req := &http.Request{Method: "POST", URL: u, Proto: fmt.Sprintf("HTTP/%d.%d", e.major, e.minor), ProtoMajor: e.major, ProtoMinor: e.minor,
+	uc := *e.parsed
+	u := &uc
+	req := &http.Request{Method: "POST", URL: u, Proto: e.proto, ProtoMajor: e.major, ProtoMinor: e.minor,
 		Header: http.Header{}, Host: u.Host, RemoteAddr: e.remote}
 	ctx, remove, err := martian.TestContext(req, nil, nil)
 	if err != nil {
@@ -631,7 +675,7 @@ func (w *stackWorld) evalStack(c Case) (fs fails, obs stackObs) {
 		fs.add("spurious_error", "ModifyRequest returned %q", obs.Err)
 	}
 	checkHopAndOthers(&fs, in, obs.Out, nil)
-	checkRequestManaged(&fs, in, obs.Out, w.id, fmt.Sprintf("%d.%d", e.major, e.minor), e.ip, u.Scheme, u.Host, e.url, bad)
+	checkRequestManaged(&fs, in, obs.Out, w.id, e.ver, e.ip, e.parsed.Scheme, e.parsed.Host, e.url, bad)
 	return
 }
 
@@ -772,8 +816,18 @@ func candidates(c Case, f int) []int {
 	return out
 }
 
-// minimise greedily replaces factor values by simpler ones while obligation sym still fails.
+// minimise greedily replaces factor values by simpler ones while obligation sym still fails: first every
+// factor is tried at its default, then the remaining ones at every simpler value, until nothing changes.
 func minimise(c Case, sym string, eval func(Case) fails) Case {
+	for f := 0; f < nf; f++ {
+		if c.F[f] != 0 {
+			d := c
+			d.F[f] = 0
+			if eval(d).has(sym) {
+				c = d
+			}
+		}
+	}
 	for changed := true; changed; {
 		changed = false
 		for f := 0; f < nf; f++ {
@@ -808,7 +862,9 @@ type memoEntry struct {
 }
 
 // signature returns the signature of a failed obligation: direction, classes of the minimised case, symptom.
-// The minimisation result is memoised per (classes of the original case, symptom).
+// Results are memoised per (classes of the case, symptom); a case one of whose factors can be reset to its
+// default takes the signature of the reduced case (usually already known: simpler cases come first), only a
+// case no factor of which can be reset is minimised value by value.
 func (sm *sigMemo) signature(prefix string, c Case, sym string, eval func(Case) fails) (string, Case) {
 	key := prefix + "|" + classes(c) + "|" + sym
 	sm.mu.Lock()
@@ -817,12 +873,26 @@ func (sm *sigMemo) signature(prefix string, c Case, sym string, eval func(Case) 
 	if ok {
 		return e.sig, e.min
 	}
-	m := minimise(c, sym, eval)
-	e = memoEntry{sig: prefix + ":" + classes(m) + ":" + sym, min: m}
+	reduced := false
+	for f := 0; f < nf && !reduced; f++ {
+		if c.F[f] == 0 {
+			continue
+		}
+		d := c
+		d.F[f] = 0
+		if eval(d).has(sym) {
+			e.sig, e.min = sm.signature(prefix, d, sym, eval)
+			reduced = true
+		}
+	}
+	if !reduced {
+		m := minimise(c, sym, eval)
+		e = memoEntry{sig: prefix + ":" + classes(m) + ":" + sym, min: m}
+	}
 	sm.mu.Lock()
 	sm.m[key] = e
 	sm.mu.Unlock()
-	return e.sig, m
+	return e.sig, e.min
 }
 
 // ---------------------------------------------------------------------------------------------------
@@ -931,33 +1001,45 @@ func stackSpaces(tier string) []space {
 		}
 		return m
 	}
-	fx := allFixed
 	xfAll := map[int][]int{fXFF: seq(4), fXFP: seq(3), fXFH: seq(3), fXFU: seq(3)}
-	sc, envs := smallConn(7), seq(nEnv)
+	sc, envSel := smallConn(7), seq(nEnv)
 	if tier == "quick" {
-		fx = fixedQuick
-		sc, envs = smallConn(4), []int{0, 3, 8, 11}
+		sc, envSel = []int{0, connIndex([]string{"close", " X-Bar "})}, []int{0, 11}
+	}
+	xbarSmall := []int{0, 1}
+	if tier == "quick" {
+		xbarSmall = []int{1}
 	}
 	var out []space
 	for _, dir := range []string{"req", "res"} {
-		out = append(out, mkSpace(dir+"/hop=Conn*XFoo*XBar*Fixed*TE{none,chunked}", dir, hop(map[int][]int{fFixed: fx, fTE: {0, 1}})))
+		if tier == "quick" {
+			out = append(out, mkSpace(dir+"/hop=Conn*XFoo*XBar*Fixed{0,1,n-1,n of 7}*TE{none,chunked}", dir, hop(map[int][]int{fFixed: fixedQuick, fTE: {0, 1}})))
+		} else {
+			// every subset of the fixed headers with Connection lists of up to 2 tokens, the small/large subsets with all lists
+			out = append(out, mkSpace(dir+"/hop=Conn(<=2 tokens per line)*XFoo*XBar*Fixed(all subsets)*TE{none,chunked}", dir,
+				map[int][]int{fConn: shortConn(), fXFoo: xfoo, fXBar: xbar, fFixed: allFixed, fTE: {0, 1}}))
+			out = append(out, mkSpace(dir+"/hop=Conn*XFoo*XBar*Fixed{0,1,n-1,n of 7}*TE{none,chunked}", dir, hop(map[int][]int{fFixed: fixedQuick, fTE: {0, 1}})))
+		}
 		out = append(out, mkSpace(dir+"/hop*Via", dir, hop(map[int][]int{fVia: seq(nVia)})))
 		out = append(out, mkSpace(dir+"/hop*CL*TE", dir, hop(framing)))
-		if tier == "quick" {
-			// each X-Forwarded-* header varied on its own, plus all present together
-			out = append(out, mkSpace(dir+"/hop*XFF", dir, hop(map[int][]int{fXFF: seq(4)})))
-			out = append(out, mkSpace(dir+"/hop*XF{all one, all two lines}", dir, hop(map[int][]int{fXFF: {1, 2}, fXFP: {1, 2}, fXFH: {1, 2}, fXFU: {1, 2}})))
-		} else {
-			out = append(out, mkSpace(dir+"/hop*XFF*XFProto*XFHost*XFUrl", dir, hop(xfAll)))
+		// each X-Forwarded-* header varied on its own, plus all present together
+		out = append(out, mkSpace(dir+"/hop*XFF", dir, hop(map[int][]int{fXFF: seq(4)})))
+		out = append(out, mkSpace(dir+"/hop*XF{all one, all two lines}", dir, hop(map[int][]int{fXFF: {1, 2}, fXFP: {1, 2}, fXFH: {1, 2}, fXFU: {1, 2}})))
+		if tier != "quick" {
+			m := map[int][]int{fConn: shortConn(), fXFoo: xfoo, fXBar: xbar}
+			for k, v := range xfAll {
+				m[k] = v
+			}
+			out = append(out, mkSpace(dir+"/hop(<=2 tokens per line)*XFF*XFProto*XFHost*XFUrl", dir, m))
 		}
-		m := map[int][]int{fConn: sc, fXFoo: {0, 2}, fXBar: {0, 1}, fFixed: fixedNoneAll, fVia: seq(nVia), fCL: framing[fCL], fTE: framing[fTE]}
+		m := map[int][]int{fConn: sc, fXFoo: {0, 2}, fXBar: xbarSmall, fFixed: fixedNoneAll, fVia: seq(nVia), fCL: framing[fCL], fTE: framing[fTE]}
 		for k, v := range xfAll {
 			m[k] = v
 		}
 		if dir == "req" {
-			m[fEnv] = envs
+			m[fEnv] = envSel
 		}
-		out = append(out, mkSpace(dir+"/smallConn*XFoo{0,2}*XBar*Fixed{none,all}*Via*XFF*XFProto*XFHost*XFUrl*CL*TE*Env", dir, m))
+		out = append(out, mkSpace(dir+"/fewConn*XFoo{0,2}*XBar*Fixed{none,all}*Via*XFF*XFProto*XFHost*XFUrl*CL*TE*Env", dir, m))
 	}
 	return out
 }
@@ -974,8 +1056,9 @@ func (s *space) describe() string {
 
 // nontrivial: the model demands something beyond stamping a plain message.
 func nontrivial(c Case, in http.Header, id identity) bool {
+	hi := newHopInfo(in["Connection"])
 	for name := range in {
-		if hopKind(name, in["Connection"]) != "" {
+		if hi.kind(name) != "" {
 			return true
 		}
 	}
@@ -983,39 +1066,39 @@ func nontrivial(c Case, in http.Header, id identity) bool {
 }
 
 // stateKey: abstract state = direction, set of header names the model removes, classes of the managed groups.
-func stateKey(c Case, in http.Header) string {
-	var rm []string
-	for name := range in {
-		if hopKind(name, in["Connection"]) != "" {
-			rm = append(rm, name)
+func stateKey(c Case, in http.Header) uint64 {
+	hi := newHopInfo(in["Connection"])
+	k := uint64(0)
+	if c.Dir == "res" {
+		k = 1
+	}
+	bit := uint(1)
+	for _, n := range stateNames {
+		if _, ok := in[n]; ok && hi.kind(n) != "" {
+			k |= 1 << bit
 		}
+		bit++
 	}
-	sort.Strings(rm)
-	d := c
-	d.F[fConn], d.F[fXFoo], d.F[fXBar], d.F[fFixed] = 0, 0, 0, 0
-	return c.Dir + "|" + strings.Join(rm, ",") + "|" + classes(d)
-}
-
-type acc struct {
-	cases, distinct, nontrivial, transitions, failing int64
-	states                                           map[string]struct{}
-}
-
-type violationSink struct {
-	mu     sync.Mutex
-	counts map[string]int
-	rep    *lib.Report
-}
-
-func (vs *violationSink) want(sig string) bool {
-	vs.mu.Lock()
-	defer vs.mu.Unlock()
-	if vs.counts[sig] >= 3 {
-		return false
+	for _, f := range []int{fVia, fXFF, fXFP, fXFH, fXFU, fCL, fTE, fEnv} {
+		k = k*7 + uint64(classCode(c, f))
 	}
-	vs.counts[sig]++
-	return true
+	return k
 }
+
+var stateNames = append([]string{"Connection", "X-Foo", "X-Bar", "Transfer-Encoding"}, fixedNames...)
+
+// classCode numbers the classes of one factor (0 = default value).
+func classCode(c Case, f int) int {
+	cl := classOf(c, f)
+	if cl == "" {
+		return 0
+	}
+	return classCodeOf[cl]
+}
+
+var classCodeOf = map[string]int{"via_one_line": 1, "via_multi_line": 2, "via_same_name_other_boundary": 3, "via_self_first_line": 4, "via_self_later_line": 5,
+	"xff_one_line": 1, "xff_multi_line": 2, "xfproto_one": 1, "xfproto_multi_line": 2, "xfhost_one": 1, "xfhost_multi_line": 2, "xfurl_one": 1, "xfurl_multi_line": 2,
+	"cl_one": 1, "cl_dup_equal": 2, "cl_conflict": 3, "te_chunked": 1, "te_coded_chunked": 2, "te_bad": 3, "env_alt": 1}
 
 func headerString(h http.Header) string {
 	var keys []string
@@ -1032,125 +1115,165 @@ func headerString(h http.Header) string {
 	return sb.String()
 }
 
-func runStack(rep *lib.Report, tier string) {
+// stackOut is what one stack shard (a worker process) reports.
+type stackOut struct {
+	Done                                              bool
+	Cases, Distinct, Nontrivial, Transitions, Failing int64
+	MinEvals                                          int64
+	States                                            []uint64
+	Violations                                        []lib.Violation // described ones, at most 3 per signature
+	SigCounts                                         map[string]int64
+	Samples                                           []interface{}
+	Incomplete                                        string
+}
+
+// stackShard enumerates the shard-th of n contiguous ranges of every stack space. The work is split over
+// processes, not goroutines: martian's context table is behind one global mutex that every TestContext takes.
+func stackShard(tier string, shard, n int, outFile string) {
+	out := stackOut{SigCounts: map[string]int64{}}
+	write := func() {
+		b, _ := json.Marshal(out)
+		os.WriteFile(outFile, b, 0o644)
+	}
 	w, err := newStackWorld()
 	if err != nil {
-		rep.Violate("req:plain:via_own_missing", "calibration failed: "+err.Error(), nil)
+		if shard == 0 {
+			out.Violations = append(out.Violations, lib.Violation{Sig: "req:plain:via_own_missing", Desc: "calibration failed: " + err.Error()})
+			out.SigCounts["req:plain:via_own_missing"] = 1
+		}
+		out.Done = true
+		write()
 		return
 	}
 	spaces := stackSpaces(tier)
 	memo := &sigMemo{m: map[string]memoEntry{}}
-	sink := &violationSink{counts: map[string]int{}, rep: rep}
-	eval := func(c Case) fails { fs, _ := w.evalStack(c); return fs }
-	var descr []string
-	var mu sync.Mutex
-	total := acc{states: map[string]struct{}{}}
-	var extraEvals int64
-	sigCounts := map[string]int64{}
+	states := map[uint64]struct{}{}
+	described := map[string]int{}
+	eval := func(c Case) fails { out.MinEvals++; fs, _ := w.evalStack(c); return fs }
 	deadline := time.Now().Add(13 * time.Minute)
-	var capped int32
 	for si := range spaces {
 		s := &spaces[si]
-		descr = append(descr, s.describe())
-		const chunk = 4096
-		n := s.size()
-		nchunks := int((n + chunk - 1) / chunk)
+		size := s.size()
+		lo, hi := size*int64(shard)/int64(n), size*int64(shard+1)/int64(n)
 		earlier := spaces[:si]
-		lib.Parallel(nchunks, func(ci int) {
-			if time.Now().After(deadline) {
-				atomic.StoreInt32(&capped, 1)
-				return
+		for idx := lo; idx < hi; idx++ {
+			if idx&1023 == 0 && time.Now().After(deadline) {
+				out.Incomplete = "stack shard stopped at its 13 minute cap"
+				break
 			}
-			a := acc{states: map[string]struct{}{}}
-			localSig := map[string]string{} // classes|symptom -> signature
-			localCnt := map[string]int64{}
-			lo, hi := int64(ci)*chunk, int64(ci+1)*chunk
-			if hi > n {
-				hi = n
+			c := s.decode(idx)
+			fs, obs := w.evalStack(c)
+			out.Cases++
+			out.Transitions += int64(obs.transition)
+			dup := false
+			for ei := range earlier {
+				if earlier[ei].contains(c) {
+					dup = true
+					break
+				}
 			}
-			for idx := lo; idx < hi; idx++ {
-				c := s.decode(idx)
-				fs, obs := w.evalStack(c)
-				a.cases++
-				a.transitions += int64(obs.transition)
-				dup := false
-				for ei := range earlier {
-					if earlier[ei].contains(c) {
-						dup = true
-						break
-					}
+			if !dup {
+				out.Distinct++
+				if nontrivial(c, obs.In, w.id) {
+					out.Nontrivial++
 				}
-				if !dup {
-					a.distinct++
-					if nontrivial(c, obs.In, w.id) {
-						a.nontrivial++
-					}
-				}
-				a.states[stateKey(c, obs.In)] = struct{}{}
-				if idx == lo && (ci%97 == 0) {
-					rep.Sample(8, map[string]interface{}{"space": s.Name, "case": c, "conn_lines": connLines(c.F[fConn]), "in": headerString(obs.In), "out": headerString(obs.Out),
-						"err": obs.Err, "skip_round_trip": obs.Skip, "response_status": obs.ResStatus})
-				}
-				if len(fs) == 0 {
-					continue
-				}
-				a.failing++
-				cls := classes(c)
-				for _, f := range fs {
-					key := cls + "|" + f.Sym
-					if sig, ok := localSig[key]; ok {
-						localCnt[sig]++
-						continue
-					}
-					sig, min := memo.signature(c.Dir, c, f.Sym, func(d Case) fails { atomic.AddInt64(&extraEvals, 1); return eval(d) })
-					localSig[key] = sig
-					if sink.want(sig) {
-						mfs, mobs := w.evalStack(min)
-						desc := f.Desc
-						for _, mf := range mfs {
-							if mf.Sym == f.Sym {
-								desc = mf.Desc
-							}
+			}
+			states[stateKey(c, obs.In)] = struct{}{}
+			if idx == lo && len(out.Samples) < 2 && (si+shard)%5 == 0 {
+				out.Samples = append(out.Samples, map[string]interface{}{"space": s.Name, "case": c, "conn_lines": connLines(c.F[fConn]), "in": headerString(obs.In), "out": headerString(obs.Out),
+					"err": obs.Err, "skip_round_trip": obs.Skip, "response_status": obs.ResStatus})
+			}
+			if len(fs) == 0 {
+				continue
+			}
+			out.Failing++
+			for _, f := range fs {
+				sig, min := memo.signature(c.Dir, c, f.Sym, eval)
+				out.SigCounts[sig]++
+				if described[sig] < 3 {
+					described[sig]++
+					mfs, mobs := w.evalStack(min)
+					desc := f.Desc()
+					for _, mf := range mfs {
+						if mf.Sym == f.Sym {
+							desc = mf.Desc()
 						}
-						rep.Violate(sig, fmt.Sprintf("%s stack, minimised case: in {%s} -> out {%s} err=%q skip=%v response=%d: %s", c.Dir, headerString(mobs.In), headerString(mobs.Out), mobs.Err, mobs.Skip, mobs.ResStatus, desc),
-							replayOf("stack", min, c))
-					} else {
-						localCnt[sig]++
 					}
+					out.Violations = append(out.Violations, lib.Violation{Sig: sig,
+						Desc:   fmt.Sprintf("%s stack, minimised case: in {%s} -> out {%s} err=%q skip=%v response=%d: %s", c.Dir, headerString(mobs.In), headerString(mobs.Out), mobs.Err, mobs.Skip, mobs.ResStatus, desc),
+						Replay: replayOf("stack", min, c)})
 				}
 			}
-			mu.Lock()
-			total.cases += a.cases
-			total.distinct += a.distinct
-			total.nontrivial += a.nontrivial
-			total.transitions += a.transitions
-			total.failing += a.failing
-			for k := range a.states {
-				total.states[k] = struct{}{}
+		}
+	}
+	for k := range states {
+		out.States = append(out.States, k)
+	}
+	out.Done = true
+	write()
+}
+
+func runStack(rep *lib.Report, tier string) {
+	var descr []string
+	for _, s := range stackSpaces(tier) {
+		descr = append(descr, s.describe())
+	}
+	rep.Coverage["stack_spaces"] = descr
+	rep.Coverage["connection_configurations"] = connCount()
+	dir, err := os.MkdirTemp("", "c14-stack-")
+	if err != nil {
+		rep.Incomplete = "cannot create temp dir: " + err.Error()
+		return
+	}
+	defer os.RemoveAll(dir)
+	files, errs, outs := lib.RunShards(16, dir)
+	states := map[uint64]struct{}{}
+	sigCounts := map[string]int64{}
+	stored := map[string]int64{}
+	for i, f := range files {
+		var so stackOut
+		b, _ := os.ReadFile(f)
+		json.Unmarshal(b, &so)
+		if !so.Done {
+			tail := outs[i]
+			if len(tail) > 1500 {
+				tail = tail[:1500]
 			}
-			for k, v := range localCnt {
-				sigCounts[k] += v
+			rep.Violate("stack:worker:crash", fmt.Sprintf("stack shard %d died (%v): %s", i, errs[i], tail), nil)
+			rep.Incomplete = "a stack shard died"
+			continue
+		}
+		if so.Incomplete != "" {
+			rep.Incomplete = so.Incomplete
+		}
+		rep.Count("stack_cases", so.Cases)
+		rep.Count("stack_distinct_cases", so.Distinct)
+		rep.Count("stack_nontrivial", so.Nontrivial)
+		rep.Count("stack_transitions", so.Transitions)
+		rep.Count("stack_failing_cases", so.Failing)
+		rep.Count("stack_minimisation_evaluations", so.MinEvals)
+		for _, h := range so.States {
+			states[h] = struct{}{}
+		}
+		for _, smp := range so.Samples {
+			rep.Sample(8, smp)
+		}
+		for _, v := range so.Violations {
+			if stored[v.Sig] < 3 {
+				stored[v.Sig]++
+				rep.Violate(v.Sig, v.Desc, v.Replay)
 			}
-			mu.Unlock()
-		})
+		}
+		for sig, cnt := range so.SigCounts {
+			sigCounts[sig] += cnt
+		}
 	}
 	for sig, cnt := range sigCounts { // one Violate call per failing case; descriptions only for the first ones
-		for k := int64(0); k < cnt; k++ {
+		for k := stored[sig]; k < cnt; k++ {
 			rep.Violate(sig, "", nil)
 		}
 	}
-	if capped != 0 {
-		rep.Incomplete = "stack part stopped at its 13 minute cap"
-	}
-	rep.Count("stack_cases", total.cases)
-	rep.Count("stack_distinct_cases", total.distinct)
-	rep.Count("stack_nontrivial", total.nontrivial)
-	rep.Count("stack_transitions", total.transitions)
-	rep.Count("stack_failing_cases", total.failing)
-	rep.Count("stack_minimisation_evaluations", extraEvals)
-	rep.Count("stack_states", int64(len(total.states)))
-	rep.Coverage["stack_spaces"] = descr
-	rep.Coverage["connection_configurations"] = connCount()
+	rep.Count("stack_states", int64(len(states)))
 }
 
 // ---------------------------------------------------------------------------------------------------
@@ -1311,6 +1434,7 @@ type exchangeT struct {
 	ResH    http.Header
 	Origin  []originRec
 	Sent    string
+	Served  string // raw response the origin was told to send ("" = default)
 }
 
 func writeHeaderLines(sb *strings.Builder, h http.Header) {
@@ -1357,6 +1481,7 @@ func (w *proxyWorld) exchange(id string, reqH, resH http.Header) exchangeT {
 		} else {
 			sb.WriteString("hello") // close-delimited
 		}
+		ex.Served = sb.String()
 		w.origin.mu.Lock()
 		w.origin.resp[id] = []byte(sb.String())
 		w.origin.mu.Unlock()
@@ -1502,7 +1627,7 @@ func (w *proxyWorld) evalProxy(c Case) (fs fails, ex exchangeT) {
 	mfs := fails{}
 	checkRequestManaged(&mfs, in, got, w.id, "1.1", "127.0.0.1", "http", oaddr, "http://"+oaddr+"/c14?x=1", true)
 	for _, f := range mfs {
-		fs.add(f.Sym, "%s", f.Desc)
+		fs.add(f.Sym, "%s", f.Desc())
 	}
 	return
 }
@@ -1585,7 +1710,7 @@ func proxyWorker(tier string, shard, n int, start int64, outFile string) {
 			}
 			oc := c.Dir + ":" + ex.Outcome + ":" + strconv.Itoa(ex.Status) + ":origin_saw=" + strconv.Itoa(len(ex.Origin))
 			out.Outcomes[oc]++
-			states["proxy|"+stateKey(c, in)+"|"+oc] = struct{}{}
+			states[fmt.Sprintf("proxy|%d|%s", stateKey(c, in), oc)] = struct{}{}
 			if len(out.Samples) < 3 && pos%997 == int64(shard) {
 				out.Samples = append(out.Samples, map[string]interface{}{"space": s.Name, "case": c, "sent": ex.Sent, "outcome": oc})
 			}
@@ -1603,10 +1728,10 @@ func proxyWorker(tier string, shard, n int, start int64, outFile string) {
 				out.Counts[sig]++
 				if out.Counts[sig] <= 2 {
 					mfs, mex := w.evalProxy(min)
-					desc := f.Desc
+					desc := f.Desc()
 					for _, mf := range mfs {
 						if mf.Sym == f.Sym {
-							desc = mf.Desc
+							desc = mf.Desc()
 						}
 					}
 					var osaw []string
@@ -1614,7 +1739,7 @@ func proxyWorker(tier string, shard, n int, start int64, outFile string) {
 						osaw = append(osaw, r.Line+" {"+headerString(r.H)+"}")
 					}
 					out.Violations = append(out.Violations, lib.Violation{Sig: sig,
-						Desc:   fmt.Sprintf("through the proxy (%s), minimised case: client sent %q; origin saw %q; client got %s %d {%s}: %s", c.Dir, mex.Sent, osaw, mex.Outcome, mex.Status, headerString(mex.ResH), desc),
+						Desc:   fmt.Sprintf("through the proxy (%s), minimised case: client sent %q; origin saw %q; origin answered %q; client got %s %d {%s}: %s", c.Dir, mex.Sent, osaw, mex.Served, mex.Outcome, mex.Status, headerString(mex.ResH), desc),
 						Replay: replayOf("proxy", min, c)})
 				}
 			}
@@ -1767,7 +1892,7 @@ func replay(path string) {
 		}
 		var ex exchangeT
 		fs, ex = w.evalProxy(c)
-		fmt.Printf("sent %q\norigin saw %d request(s)\nclient got %s %d {%s}\n", ex.Sent, len(ex.Origin), ex.Outcome, ex.Status, headerString(ex.ResH))
+		fmt.Printf("sent %q\norigin saw %d request(s), answered %q\nclient got %s %d {%s}\n", ex.Sent, len(ex.Origin), ex.Served, ex.Outcome, ex.Status, headerString(ex.ResH))
 		for _, o := range ex.Origin {
 			fmt.Printf("  origin: %s {%s}\n", o.Line, headerString(o.H))
 		}
@@ -1782,7 +1907,7 @@ func replay(path string) {
 		fmt.Printf("in  {%s}\nout {%s}\nerr=%q skip=%v response=%d\n", headerString(obs.In), headerString(obs.Out), obs.Err, obs.Skip, obs.ResStatus)
 	}
 	for _, f := range fs {
-		fmt.Printf("FAILED %s: %s\n", f.Sym, f.Desc)
+		fmt.Printf("FAILED %s: %s\n", f.Sym, f.Desc())
 	}
 	if len(fs) > 0 {
 		os.Exit(1)
@@ -1812,6 +1937,10 @@ func main() {
 		buildConnLists(3)
 		replay(p)
 	}
+	if i, n := lib.ShardEnv(); n > 0 && os.Getenv("C14_PROXY_WORKER") == "" {
+		stackShard(tier, i, n, os.Getenv("VERIF_SHARD_OUT"))
+		return
+	}
 	if wk := os.Getenv("C14_PROXY_WORKER"); wk != "" {
 		parts := strings.Split(wk, "/")
 		i, _ := strconv.Atoi(parts[0])
@@ -1821,11 +1950,6 @@ func main() {
 		return
 	}
 
-	if pf := os.Getenv("C14_PROFILE"); pf != "" {
-		f, _ := os.Create(pf)
-		pprof.StartCPUProfile(f)
-		go func() { time.Sleep(40 * time.Second); pprof.StopCPUProfile(); f.Close(); os.Exit(3) }()
-	}
 	rep := lib.NewReport("C14", "model_checking")
 	t0 := time.Now()
 	if os.Getenv("C14_ONLY") != "proxy" {
